@@ -973,6 +973,9 @@ def register(eng):
     def _(eng, a, c):
         return default_for(eng, c)
 
+    @model("Not::not")
+    def _(eng, a, c): return b_not(deref(a[0])) if isinstance(deref(a[0]), bool) or (is_sym(deref(a[0])) and z3.is_bool(deref(a[0]))) else ~deref(a[0])
+
     @model("PartialEq::eq")
     def _(eng, a, c): return veq(eng, a[0], a[1])
 
@@ -1082,7 +1085,11 @@ def register(eng):
     def _(eng, a, c): return eng.length_of(a[0]) == 0
 
     @model("slice::to_vec", "slice::to_owned", "Vec::to_vec")
-    def _(eng, a, c): return VecM([vclone(eng, x) for x in deref(a[0]).items])
+    def _(eng, a, c):
+        x = deref(a[0])
+        if isinstance(x, Opaque):
+            return Opaque("to_vec", [x])
+        return VecM([vclone(eng, y) for y in x.items])
 
     @model("slice::iter", "Vec::iter", "slice::iter_mut", "Vec::iter_mut")
     def _(eng, a, c): return to_iter(eng, a[0] if isinstance(a[0], Ref) else ref_to_value(a[0]))
